@@ -30,6 +30,20 @@ def linecol(text, i):
     return line, col
 
 
+BOM = "\ufeff"
+
+
+def strip_bom(text):
+    """what the compiler sees of a file: a leading byte-order mark is dropped before positions are assigned"""
+    return text[1:] if text.startswith(BOM) else text
+
+
+def file_offset(text, i):
+    """byte offset, in the file as it is read back, of the character the compiler calls number i"""
+    seen = strip_bom(text)
+    return len(text.encode("utf-8")) - len(seen.encode("utf-8")) + prefix_bytes(seen, i)
+
+
 def prefix_bytes(text, i):
     return len(text[:i].encode("utf-8"))
 
